@@ -9,5 +9,18 @@ def build(tier, seed):
               (3, 1, 5), (3, 2, 4), (3, 2, 6), (3, 0, 3)]
     for w, j, flen in shapes:
         I.append(snd("c01_snd_w%d_j%d_f%d" % (w, j, flen), w, 2, j, flen, oracle=orc))
+    # duplicate-packets mode must not change what a block number carries
+    for rep, w, j, flen in ([(2, 2, 1, 4)] if tier == "quick" else [(2, 2, 1, 4), (3, 1, 0, 3), (2, 3, 2, 5)]):
+        I.append(snd("c01_snd_rep%d_w%d_j%d_f%d" % (rep, w, j, flen), w, 2, j, flen, rep=rep, oracle=orc))
+    if tier == "thorough":
+        for w, j, flen in [(1, 0, 4), (2, 0, 1), (2, 0, 2), (2, 0, 3), (2, 1, 5), (3, 0, 5), (3, 0, 6), (3, 1, 3), (3, 1, 4), (3, 2, 5), (3, 2, 8), (4, 3, 8), (65535, 1, 4)]:
+            I.append(snd("c01_snd_w%d_j%d_f%d" % (w, j, flen), w, 2, j, flen, oracle=orc))
+        for w, j, flen in [(2, 2, 3), (3, 2, 2), (3, 3, 5), (2, 1, 1)]:
+            I.append(snd("c01_posteof_w%d_j%d_f%d" % (w, j, flen), w, 2, j, flen, oracle=orc))
+        for w, blk, j, flen in [(2, 3, 1, 7), (2, 1, 1, 3), (1, 3, 0, 6)]:
+            I.append(snd("c01_blk%d_w%d_j%d_f%d" % (blk, w, j, flen), w, blk, j, flen, oracle=orc))
+        I.append(snd("c01_hs_w2_f3", 2, 2, 0, 3, oracle=orc, hs=True, fs=True, b0=(1, 1)))
+    import c18
+    I += c18.remove_equiv("quick")
     return Check("C01", tier, I, seed, functions=WORKER_FUNCS_SND, assumptions=WORKER_ASSUMPTIONS,
                  explanation="send_file from every injected pre-EOF state, one fully symbolic peer event, second burst observed")
